@@ -187,6 +187,7 @@ def run(ctx):
     s_ops(st)
     s_extreme(st, jobs)
     s_representation(st)
+    s_scale(st)
     s_admt(st)
     s_refine(st)
 
@@ -988,12 +989,97 @@ def s_refine(st):
                              dict(stream='S-refine', sizes=sizes, anisotropy=aniso, errors=errs))
 
 
+# ------------------------------------------------------------------------------------ S: scale of the flux map
+# The operator depends on psi only through the direction of grad psi (Props: admt_coefficients_scale_invariant).
+# Range of scales: the highest power of psi formed while evaluating the coefficients is 4 (dnorm_term_c*: (D psi_x^2 + ..)
+# * (psi_x psi_xx + ..) before the division by |grad psi|^2), so with |c| <= 2^200 ~ 1.6e60 the intermediates stay within
+# 2^+-800 * (grid factors <= 2^+-100), inside the double range 2^+-1022: neither |grad psi|^2 nor any product underflows or
+# overflows, and for c a power of two every operation scales exactly, so the result must agree to rounding (we ask 1e-11).
+# Decimal factors 1e-12 .. 1e12 re-round psi; there the tolerance is scaled by the conditioning of the second differences.
+SCALES_POW2 = [s * 2.0 ** k for k in (-200, -100, -40, -30, -20, -10, 10, 20, 30, 40, 100, 200) for s in (1, -1)] + [-1.0]
+SCALES_DEC = [s * 10.0 ** k for k in (-12, -9, -6, -3, 3, 6, 9, 12) for s in (1, -1)]
+
+
+def check_scale_case(st, nx, ny, dx, dy, x0, y0, aniso, shape_coef, stream, scales=None):
+    """calculate_admt(c * psi) against calculate_admt(psi) and against the Laplacian (anisotropy 1) for many c"""
+    ctx = st.ctx
+    cells = full_cells(nx, ny)
+    v, m12, m21, (status, ops) = gen(st, cells, dx, dy, x0, y0)
+    if status != 'ok':
+        return
+    c_ = v.mean(axis=1)
+    x, y = c_[:, 0], c_[:, 1]
+    a = shape_coef
+    # curved flux map with |grad| = O(1) in cell units, centre outside the grid
+    u, w = (x - x.min()) / dx + a[0], (y.max() - y) / dy + a[1]
+    shape = a[2] * u * u + a[3] * w * w + a[4] * u * w
+    status, ref = call(st.A.calculate_admt, x, ops, shape, dx, dy, aniso)
+    rep0 = dict(stream=stream, scale_study=True, nx=nx, ny=ny, dx=dx, dy=dy, x0=x0, y0=y0, anisotropy=aniso, shape=list(a))
+    if status != 'ok':
+        ctx.fail('C20:calculate_admt:raises:' + status, 'scale study, c = 1: %s' % ref, rep0)
+        return
+    jet, N = reference_admt(ops, shape, x, dx, dy, aniso)
+    g2 = (1.0 / dx) ** 2 + (1.0 / dy) ** 2
+    if not np.all(np.isfinite(ref)) or N.min() < 1e-3 * g2:
+        ctx.count('S-scale:skipped-small-gradient')
+        return
+    rowscale = np.abs(jet).max(axis=1)
+    lap = (ops['Dxx'] + ops['Dyy'] + np.diag(1 / x) @ ops['Dx']) * math.sqrt(dx * dy)
+    # conditioning of the discrete second derivatives w.r.t. rounding of the psi values
+    cond = max(1.0, np.abs(shape).max() * (1 / dx ** 2 + 1 / dy ** 2) / math.sqrt(N.min()) / min(1 / dx, 1 / dy))
+    # mildest scales first, so that the reported failing input is the least exotic one
+    for c in sorted(scales if scales is not None else SCALES_POW2 + SCALES_DEC, key=lambda t: (abs(math.log2(abs(t))), t)):
+        exact = math.frexp(abs(c))[0] == 0.5
+        tol = 1e-11 if exact else min(1e-3, 1e-13 * cond * cond)
+        ctx.case(key=('S-scale', stream, nx, ny, f2b(aniso), f2b(c)))
+        ctx.count('S-scale:' + ('pow2' if exact else 'decimal'))
+        rep = dict(rep0, scale=c)
+        status, L = call(st.A.calculate_admt, x, ops, c * shape, dx, dy, aniso)
+        if status != 'ok':
+            ctx.fail('C20:calculate_admt:raises:' + status, 'psi scaled by %g: %s' % (c, L), rep)
+            continue
+        if not np.all(np.isfinite(L)):
+            ctx.fail('C20:calculate_admt:not-finite:scaled-psi', 'psi scaled by %g (|grad psi|^2 >= %g): non-finite entries' % (c, c * c * N.min()), rep)
+            continue
+        err = float((np.abs(L - ref).max(axis=1) / rowscale).max())
+        if err > tol:
+            i = int(np.argmax(np.abs(L - ref).max(axis=1) / rowscale))
+            ctx.fail('C20:calculate_admt:depends-on-scale-of-psi',
+                     'calculate_admt(%g * psi) differs from calculate_admt(psi) (same flux surfaces): relative row error %.3g in row %d, '
+                     '|grad psi|^2 there %.3g' % (c, err, i, c * c * N[i]), dict(rep, row=i, rel_error=err))
+        if aniso == 1.0:
+            e2 = float((np.abs(L - lap).max(axis=1) / np.abs(lap).max(axis=1)).max())
+            if e2 > max(tol, 1e-10 * cond):
+                ctx.fail('C20:calculate_admt:isotropic-not-laplacian:scaled-psi',
+                         'anisotropy 1 with psi scaled by %g: differs from (Dxx + Dyy + Dx/R) sqrt(dx dy) by %.3g (relative)' % (c, e2),
+                         dict(rep, rel_error=e2))
+
+
+def s_scale(st):
+    ctx, rng = st.ctx, st.ctx.rng
+    jobs = []
+    for it in range(ctx.n(6, 40)):
+        nx, ny = rng.randint(2, 7), rng.randint(2, 7)
+        dx, dy = rnd_step(rng), rnd_step(rng)
+        jobs.append((nx, ny, dx, dy, rng.uniform(0.5, 5.0) + dx, rnd_origin(rng, dy), None))
+    # extreme spacings: tiny / huge / very anisotropic cells (dyadic, so that the grid itself is exact)
+    for dx, dy, x0 in ((2.0 ** -20, 2.0 ** -19, 2.0), (2.0 ** 20, 2.0 ** 21, 2.0 ** 22), (2.0 ** -10, 1.0, 1.0), (1.0, 2.0 ** -10, 4.0)):
+        jobs.append((rng.randint(3, 5), rng.randint(3, 5), dx, dy, x0, 0.0, [s * 2.0 ** k for k in (-100, -40, -30, -10, 10, 30, 100) for s in (1, -1)]))
+    for j, (nx, ny, dx, dy, x0, y0, scales) in enumerate(jobs):
+        aniso = 1.0 if j % 2 == 0 else rng.choice([2.0, 10.0, rng.uniform(1, 1000)])
+        shape = [rng.uniform(1.5, 4), rng.uniform(1.5, 4), rng.uniform(0.5, 2), rng.uniform(0.5, 2), rng.uniform(-0.5, 0.5)]
+        check_scale_case(st, nx, ny, dx, dy, x0, y0, aniso, shape, 'S-scale', scales)
+
+
 # ------------------------------------------------------------------------------------------------- replay
 def replay_case(st, r):
     r = r.get('replay', r)
     if 'extreme' not in r and 'cells' in r and 'psi' not in r:
         check_ops_case(st, [tuple(c) for c in r['cells']], r['dx'], r['dy'], r['x0'], r['y0'], r['nx'], r['ny'], 'replay',
                        representation=r.get('representation'))
+    elif r.get('scale_study'):
+        check_scale_case(st, r['nx'], r['ny'], r['dx'], r['dy'], r['x0'], r['y0'], r['anisotropy'], r['shape'], 'replay',
+                         [r['scale']] if 'scale' in r else None)
     elif 'extreme' in r:
         check_extreme_case(st, r['extreme'], r['nx'], r['ny'], r.get('order', 'col'), r['dx'], r['dy'], r['x0'], r['y0'], 'replay')
     elif 'psi' in r and 'anisotropy' in r and 'nx' in r:
